@@ -1,39 +1,41 @@
 ---------------------------- MODULE FromSamplesGen ----------------------------
 (***************************************************************************)
 (* C30 generator (REPLAY) and model check.  One behaviour per sample array: *)
-(* TLC enumerates EVERY array of 1..MaxS shots x 1..MaxW wires, computes    *)
-(* for every measurement process of the list for that wire count           *)
-(* (MPS[nw], a constant of the run read from MPS_FILE) the result defined   *)
-(* by FromSamples.tla and prints array + results for the driver.           *)
+(* TLC enumerates EVERY array of 1..MaxS shots x 1..MaxW wires (Pick),      *)
+(* computes for every measurement process of the list for that wire count  *)
+(* (MPS[nw], a constant of the run read from MPS_FILE, compiled once in     *)
+(* Init) the result defined by FromSamples.tla and prints array + results  *)
+(* for the driver (Emit).                                                  *)
 (* The invariant SpecLaws checks the specification's own laws on each      *)
 (* array (probabilities sum to 1, counts total the shots, all_outcomes     *)
 (* only adds zero entries, variance identity / sign, and: the statistics   *)
 (* computed from the dictionary of full-width counts equal the statistics  *)
 (* computed from the shots).                                               *)
 (* Arrays with at least BigBits bits get the sub-list of measurement       *)
-(* processes k with k % Stride = Code(S) % Stride (Stride = 1: all).        *)
+(* processes k with k % Stride = Code(ix) % Stride (Stride = 1: all).       *)
 (***************************************************************************)
 EXTENDS FromSamples, Json, IOUtils
 CONSTANTS MaxW, MaxS, Stride, BigBits
 MPS == JsonDeserialize(IOEnv.MPS_FILE)
-VARIABLES nw, S, done
-vars == <<nw, S, done>>
+VARIABLES nw, cms, ix, res, ph
+vars == <<nw, cms, ix, res, ph>>
 
-Init == /\ nw \in 1..MaxW
-        /\ \E sh \in 1..MaxS : S \in [1..sh -> [1..nw -> {0, 1}]]
-        /\ done = FALSE
+Init == /\ nw \in 1..MaxW /\ ph = 0 /\ ix = <<>> /\ res = <<>>
+        /\ cms = LET lst == MPS[nw] IN TLCEval([k \in 1..Len(lst) |-> TLCEval(Compile(lst[k], nw))])
+Pick == /\ ph = 0 /\ ph' = 1 /\ UNCHANGED <<nw, cms, res>>
+        /\ \E sh \in 1..MaxS : ix' \in [1..sh -> 1..Pow2(nw)]
 
 RECURSIVE CodeUpTo(_, _)
-CodeUpTo(X, i) == IF i = 0 THEN 0 ELSE (CodeUpTo(X, i - 1) * 8 + Index(X[i], Iota(Len(X[i])))) % 1024
-Code(X) == CodeUpTo(X, Len(X))
-Active(k) == Stride = 1 \/ Len(S) * nw < BigBits \/ k % Stride = Code(S) % Stride
-ActiveIdx == {k \in 1..Len(MPS[nw]) : Active(k)}
+CodeUpTo(x, i) == IF i = 0 THEN 0 ELSE (CodeUpTo(x, i - 1) * 8 + x[i]) % 1024
+Code(x) == CodeUpTo(x, Len(x))
+Active(k, c) == Stride = 1 \/ Len(ix) * nw < BigBits \/ k % Stride = c
 
-Emit == /\ ~done /\ done' = TRUE /\ UNCHANGED <<nw, S>>
-        /\ PrintT(ToJson([nw |-> nw, S |-> S,
-                          C |-> FullCounts(S, nw),
-                          r |-> [k \in 1..Len(MPS[nw]) |-> IF Active(k) THEN Result(MPS[nw][k], S, nw) ELSE "-"]]))
-Next == Emit
+Emit == /\ ph = 1 /\ ph' = 2 /\ UNCHANGED <<nw, cms, ix>>
+        /\ LET c == Code(ix) % Stride IN
+           res' = [k \in 1..Len(cms) |-> IF Active(k, c) THEN TLCEval(Result(cms[k], ix)) ELSE "-"]
+        /\ PrintT(ToJson([nw |-> nw, S |-> [i \in 1..Len(ix) |-> BitsOf(ix[i] - 1, nw)], C |-> FullCounts(ix, nw), r |-> res']))
+Next == Pick \/ Emit
 
-SpecLaws == done => \A k \in ActiveIdx : Laws(MPS[nw][k], S, nw)
+SpecLaws == ph = 2 => LET C == TLCEval(FullCounts(ix, nw)) IN
+                      \A k \in 1..Len(cms) : res[k] = "-" \/ Laws(cms[k], ix, res[k], C)
 =============================================================================
